@@ -149,14 +149,14 @@ theorem unicode_step (src dst : List (BitVec 8)) (e f i fuel : Nat) (hi : i < sr
     generalize src[i] = c
     by_cases hc : c = 92#8
     · subst hc
-      simp only [bne_self_eq_false, Bool.not_false, Bool.false_eq_true, if_true, if_false, BitVec.toNat_ofNat,
+      simp only [bne_self_eq_false, beq_self_eq_true, Bool.not_true, Bool.not_not, Bool.not_false, Bool.false_eq_true, if_true, if_false, BitVec.toNat_ofNat,
         Nat.reducePow, Nat.reduceMod, ne_eq, not_true_eq_false]
       rw [idx_ok' src _ (i + 1) (by omega) hi1]
       simp only [Res.bind_ok']
       generalize src[i + 1] = c1
       by_cases hc1 : c1 = 85#8
       · subst hc1
-        simp only [bne_self_eq_false, Bool.false_eq_true, if_false, BitVec.toNat_ofNat, Nat.reducePow, Nat.reduceMod,
+        simp only [bne_self_eq_false, beq_self_eq_true, Bool.not_true, Bool.not_not, Bool.false_eq_true, if_false, BitVec.toNat_ofNat, Nat.reducePow, Nat.reduceMod,
           ne_eq, not_true_eq_false]
         rw [slice_ok' src _ _ (i + 2) (i + 10) (by omega) (by omega) (by omega) (by omega)]
         rw [(slice_ok src (i + 2) (i + 10) (by omega) (by omega)).2]
@@ -170,13 +170,13 @@ theorem unicode_step (src dst : List (BitVec 8)) (e f i fuel : Nat) (hi : i < sr
         cases ok
         · simp only [Bool.not_false, if_true]
           apply StepRel.cont
-          congr 1
+          congr 1 <;> omega
         · simp only [Bool.not_true, Bool.false_eq_true, if_false]
           by_cases hbig : v > 1114111
           · have hbig' : (BitVec.ofNat 64 v > 1114111#64) := (u64_lt_iff 1114111 v (by omega) hv64).2 hbig
             simp only [hbig, hbig', decide_true, if_true]
             apply StepRel.cont
-            congr 1
+            congr 1 <;> omega
           · have hbig' : ¬ (BitVec.ofNat 64 v > 1114111#64) := fun h => hbig ((u64_lt_iff 1114111 v (by omega) hv64).1 h)
             have hle : v ≤ 0x10FFFF := by omega
             simp only [hbig, hbig', decide_false, if_false, Bool.false_eq_true]
@@ -184,15 +184,17 @@ theorem unicode_step (src dst : List (BitVec 8)) (e f i fuel : Nat) (hi : i < sr
       · have hc1' : c1.toNat ≠ 85 := by
           intro h; apply hc1; apply BitVec.eq_of_toNat_eq; simpa using h
         have hb : (c1 != 85#8) = true := by simpa using hc1
-        simp only [hb, if_true, ne_eq, hc1', not_false_eq_true]
+        have hbe : (c1 == 85#8) = false := by simpa using hc1
+        simp only [hb, hbe, Bool.not_false, Bool.not_true, Bool.not_not, if_true, ne_eq, hc1', not_false_eq_true]
         apply StepRel.cont
-        congr 1
+        congr 1 <;> omega
     · have hc' : c.toNat ≠ 92 := by
         intro h; apply hc; apply BitVec.eq_of_toNat_eq; simpa using h
       have hb : (c != 92#8) = true := by simpa using hc
-      simp only [hb, Bool.not_true, Bool.false_eq_true, if_false, if_true, Res.bind_ok', ne_eq, hc', not_false_eq_true]
+      have hbe : (c == 92#8) = false := by simpa using hc
+      simp only [hb, hbe, Bool.not_false, Bool.not_true, Bool.not_not, Bool.not_true, Bool.false_eq_true, if_false, if_true, Res.bind_ok', ne_eq, hc', not_false_eq_true]
       apply StepRel.cont
-      congr 1
+      congr 1 <;> omega
 
 theorem unicode_end (src : List (BitVec 8)) (fuel : Nat) (dst : List (BitVec 8)) (e f i : Nat) (h : ¬ i < src.length) :
     UnicodeParse_loop1 (fuel + 1) src dst e f i = .ok (dst, (e : Int), (f : Int), (i : Int)) := by
